@@ -73,7 +73,7 @@ PATTERN_LIKE = ['{p}*', '{p}?', '{p}[12]', '{p}[1]', '{p}1', '{p}2', '{p}$$', '$
 UNNORMALISED = ['{p}e\u0301', '{p}\u00e9', '{p}\u00b5', '{p}\u03bc', '{p}\u00b2', '{p}\ufb01']
 
 
-def odd_ids(rng, prefix, n, p=0.5):
+def odd_ids(rng, prefix, n, p=0.5, ctx=None):
     """n distinct identifiers starting with `prefix`: ordinary ones (prefix0, prefix1, ...) mixed with pattern-like / unnormalised ones."""
     pool = [t.format(p=prefix) for t in PATTERN_LIKE + UNNORMALISED]
     out = []
@@ -81,6 +81,8 @@ def odd_ids(rng, prefix, n, p=0.5):
         cand = rng.choice(pool) if rng.random() < p else f'{prefix}{j}'
         while cand in out:
             cand = f'{prefix}{j}' if f'{prefix}{j}' not in out else f'{prefix}{j}_{len(out)}'
+        if ctx is not None and cand in pool:
+            ctx.count('pattern_like_or_unnormalised_ids')
         out.append(cand)
     return out
 
